@@ -11,6 +11,7 @@
 -/
 import Model.LineSpec
 import Proofs.Row
+import Proofs.Order
 
 namespace Jl.C03
 open Jl Jl.Value Jl.Template
@@ -37,6 +38,70 @@ theorem fill_keeps_declared_order (env : Env) (row row' : List (Bytes × Val)) (
 /-- Hidden columns never appear among the emitted keys; everything else appears in row order. -/
 theorem visible_is_row_order_without_hidden (ms : List (Bytes × Val)) :
     RowPrint.visibleKeys ms = (ms.filter fun kv => Cells.format kv.2 != .hidden).map Prod.fst := rfl
+
+/-! ### One line through importer and exporter (`Proofs/Order.lean`)
+
+`jlLine` = `getRow` under the input template, `createRow(Row)` under the output template,
+`marshalRow` (which prints `visibleKeys`, C01/C02 relate the bytes to them). For EVERY input
+text, every pair of templates (any formats and raw types, declared sub-rows included), every
+cast table: -/
+
+/-- A line that is emitted went through exactly these steps. -/
+theorem emitted_line_steps (env : Env) (ti to : Tmpl) (line b : Bytes)
+    (h : jlLine env ti to line = .ok (b, none)) :
+    ∃ r row' body, getRow env ti line = .ok (r, none) ∧
+      createRow env to (.val (.row (Members.ofList r))) = .ok (row', none) ∧
+      RowPrint.marshalRow env (Members.ofList row') = .ok body ∧ b = body ++ [0x0A] :=
+  Order.jlLine_ok env ti to line b h
+
+/-- The emitted keys: the output template's visible columns in declaration order, then every
+    other key in the order input-template columns / first appearance in the text. -/
+theorem emitted_keys (env : Env) (ti to : Tmpl) (line : Bytes) (r row' : List (Bytes × Val))
+    (hti : (OMap.keys ti).Nodup) (hto : (OMap.keys to).Nodup)
+    (hget : getRow env ti line = .ok (r, none))
+    (hcr : createRow env to (.val (.row (Members.ofList r))) = .ok (row', none)) :
+    RowPrint.visibleKeys row' =
+      ((OMap.keys to).filter fun k => Order.formatAt to k != some .hidden) ++
+      (Order.appendNew (OMap.keys ti) (Order.inputKeys line)).filter (fun k => decide (k ∉ OMap.keys to)) :=
+  Order.emitted_keys env ti to line r row' hti hto hget hcr
+
+/-- With templates declaring the same names (as every jl definition does): visible columns
+    first, in declaration order, then the input's undeclared keys in order of first
+    appearance — whatever the order of the declared keys in the input. -/
+theorem emitted_keys_same_names (env : Env) (ti to : Tmpl) (line : Bytes) (r row' : List (Bytes × Val))
+    (hto : (OMap.keys to).Nodup) (hperm : (OMap.keys ti).Perm (OMap.keys to))
+    (hget : getRow env ti line = .ok (r, none))
+    (hcr : createRow env to (.val (.row (Members.ofList r))) = .ok (row', none)) :
+    RowPrint.visibleKeys row' =
+      ((OMap.keys to).filter fun k => Order.formatAt to k != some .hidden) ++
+      ((Order.inputKeys line).filter (fun k => decide (k ∉ OMap.keys to))).eraseDups :=
+  Order.emitted_keys_perm env ti to line r row' hto hperm hget hcr
+
+/-- The result never depends on the input order of declared keys: two accepted lines with the
+    same undeclared keys in the same order emit the same key list. -/
+theorem independent_of_declared_key_order (env : Env) (ti to : Tmpl) (line₁ line₂ : Bytes)
+    (r₁ r₂ row₁ row₂ : List (Bytes × Val))
+    (hto : (OMap.keys to).Nodup) (hperm : (OMap.keys ti).Perm (OMap.keys to))
+    (hget₁ : getRow env ti line₁ = .ok (r₁, none))
+    (hcr₁ : createRow env to (.val (.row (Members.ofList r₁))) = .ok (row₁, none))
+    (hget₂ : getRow env ti line₂ = .ok (r₂, none))
+    (hcr₂ : createRow env to (.val (.row (Members.ofList r₂))) = .ok (row₂, none))
+    (hsame : (Order.inputKeys line₁).filter (fun k => decide (k ∉ OMap.keys to)) =
+      (Order.inputKeys line₂).filter (fun k => decide (k ∉ OMap.keys to))) :
+    RowPrint.visibleKeys row₁ = RowPrint.visibleKeys row₂ :=
+  Order.emitted_keys_input_order env ti to line₁ line₂ r₁ r₂ row₁ row₂ hto hperm hget₁ hcr₁ hget₂ hcr₂ hsame
+
+/-- Exactly once each. -/
+theorem emitted_keys_exactly_once (env : Env) (to : Tmpl) (r row' : List (Bytes × Val))
+    (hcr : createRow env to (.val (.row (Members.ofList r))) = .ok (row', none)) :
+    (RowPrint.visibleKeys row').Nodup := Order.emitted_keys_nodup env to r row' hcr
+
+/-- A column declared hidden never appears, whatever the input holds under its name. -/
+theorem hidden_never_emitted (env : Env) (to : Tmpl) (r row' : List (Bytes × Val))
+    (hto : (OMap.keys to).Nodup)
+    (hcr : createRow env to (.val (.row (Members.ofList r))) = .ok (row', none))
+    (k : Bytes) (hk : Order.formatAt to k = some .hidden) : k ∉ RowPrint.visibleKeys row' :=
+  Order.hidden_never_emitted env to r row' hto hcr k hk
 
 /-- any tables whose cast.To sends a nil target type to the value itself (as the source does) -/
 def stubTables : CastTables :=
